@@ -36,6 +36,10 @@ def configs(tier):
             out.append({"fn": "NLL", "flavour": flav, "n": n})
             for mode in ("none", "list", "dict", "self"):
                 out.append({"fn": "KL", "flavour": flav, "n": n, "mode": mode})
+    out.append({"fn": "KL", "flavour": "pure", "n": 2, "mode": "list", "grad": "off"})          # metrics evaluated under torch.no_grad()
+    out.append({"fn": "KL", "flavour": "mixed", "n": 1, "mode": "list", "grad": "off"})
+    out.append({"fn": "NLL", "flavour": "pure", "n": 2, "grad": "off"})
+    out.append({"fn": "fidelity", "flavour": "pure", "n": 2, "grad": "off"})
     out.append({"fn": "kwargs"})
     # NLL against the contracts of its callees (rotated amplitudes / probabilities, normalisation) for a data set that
     # holds every basis string of a longer chain: the grouping by basis and the averaging, at a size the full symbolic
